@@ -29,27 +29,29 @@ const (
 	KPresign       // cmp offline
 	KPresignFull   // cmp presign + sign
 	KPresignOnline // cmp online from presignatures
+	KToy           // synthetic protocol with drawn round shapes (handler-level behaviour)
 )
 
 func (k Kind) String() string {
-	return [...]string{"xor", "keygen", "refresh", "sign", "presign-offline", "presign-full", "presign-online"}[k]
+	return [...]string{"xor", "keygen", "refresh", "sign", "presign-offline", "presign-full", "presign-online", "toy"}[k]
 }
 
 // Scenario is a fully parameterised session that can be instantiated any number of times
 // (reference run, explored run, twin runs) with identical inputs.
 type Scenario struct {
-	Kind  Kind
-	Proto Proto
-	N, T  int
-	IDs   []party.ID // all shareholders
-	Parts []party.ID // participants of this session (signers for sign kinds)
-	Msg   []byte
-	Mat   *Material                        // input material (refresh / sign kinds)
-	Pre   map[party.ID]*ecdsa.PreSignature // presign-online
-	Y     ref.Pt                           // expected group key (refresh / sign kinds)
-	HasY  bool
-	SID   []byte
-	Name  string
+	Kind   Kind
+	Proto  Proto
+	N, T   int
+	IDs    []party.ID // all shareholders
+	Parts  []party.ID // participants of this session (signers for sign kinds)
+	Msg    []byte
+	Mat    *Material                        // input material (refresh / sign kinds)
+	Pre    map[party.ID]*ecdsa.PreSignature // presign-online
+	Y      ref.Pt                           // expected group key (refresh / sign kinds)
+	HasY   bool
+	SID    []byte
+	Name   string
+	Shapes []ToyShape // KToy: what rounds 2.. expect
 }
 
 func (s *Scenario) String() string {
@@ -69,6 +71,8 @@ func (s *Scenario) Mk() map[party.ID]Mk {
 			}
 		}
 		return out
+	case KToy:
+		return ToyMk(s.Parts, s.Shapes, s.SID)
 	case KKeygen:
 		return KeygenMk(s.Proto, s.Parts, s.T, s.SID)
 	// every instance works on its own deep copy of the input material
@@ -342,4 +346,29 @@ func ResultDigest(p Proto, v interface{}) string {
 		return fmt.Sprintf("%T:%x", v, bb)
 	}
 	return fmt.Sprintf("%T:%x", v, v)
+}
+
+// DrawToy draws a toy-protocol scenario: 2..4 parties, 1..5 message rounds of drawn shape.
+func DrawToy(c *fw.Ctx) *Scenario {
+	n := 2 + c.S.Draw(3, "toy-n")
+	ids := DrawIDs(c.S, n)
+	rounds := 1 + c.S.Draw(5, "toy-rounds")
+	var shapes []ToyShape
+	name := ""
+	for i := 0; i < rounds; i++ {
+		var sh ToyShape
+		switch c.S.Draw(4, "toy-shape") {
+		case 0:
+			sh = ToyShape{P2P: true}
+		case 1:
+			sh = ToyShape{Bcast: true}
+		case 2:
+			sh = ToyShape{Bcast: true, Reliable: true}
+		case 3:
+			sh = ToyShape{Bcast: true, Reliable: c.S.Draw(2, "toy-reliable") == 1, P2P: true}
+		}
+		shapes = append(shapes, sh)
+		name += "/" + sh.String()
+	}
+	return &Scenario{Kind: KToy, Proto: FROST, N: n, T: n - 1, IDs: ids, Parts: ids, SID: []byte(c.Label("sid", "main")), Shapes: shapes, Name: fmt.Sprintf("toy n=%d rounds=%s", n, name)}
 }
